@@ -7,7 +7,7 @@ From FV Require Import Common.ListX Common.Batch Common.CMonoid Common.NanQ Comm
 Import ListNotations.
 Local Open Scope Q_scope.
 
-Definition wclient := (Q * vec)%type.
+Notation wclient := (Q * list Q)%type (only parsing).
 Definition wp (c : wclient) : vec := vscale (fst c) (snd c).
 Definition wtot (cl : list wclient) : Q := qsum (map fst cl).
 Definition wsum (n : nat) (cl : list wclient) : vec := vsum n (map wp cl).
@@ -175,9 +175,9 @@ Definition nonzero_weight (c : wclient) : bool := negb (Qeq_bool (fst c) 0).
 
 Lemma wtot_filter cl : wtot (filter nonzero_weight cl) == wtot cl.
 Proof.
-  unfold wtot. induction cl as [|c cl IH]; cbn; [reflexivity|]. unfold nonzero_weight at 1.
-  destruct (Qeq_bool (fst c) 0) eqn:E; cbn; rewrite IH; [|reflexivity].
-  apply Qeq_bool_iff in E. rewrite E. ring.
+  unfold wtot. induction cl as [|c cl IH]; cbn [filter map qsum]; [reflexivity|].
+  destruct (nonzero_weight c) eqn:E; cbn [map qsum]; rewrite IH; [reflexivity|].
+  unfold nonzero_weight in E. apply negb_false_iff in E. apply Qeq_bool_iff in E. rewrite E. ring.
 Qed.
 
 Lemma wsum_filter n cl : wf_clients n cl -> wsum n (filter nonzero_weight cl) =v= wsum n cl.
@@ -186,12 +186,13 @@ Proof.
   assert (Hf : wf_clients n (filter nonzero_weight cl)).
   { clear IH. induction Hwf; cbn; [constructor|]. destruct (nonzero_weight x); [constructor|]; assumption. }
   cbn [filter map]. rewrite (vsum_cons n (wp c)) by (try rewrite wp_length; try apply wf_map_wp; assumption).
-  unfold nonzero_weight at 1. destruct (Qeq_bool (fst c) 0) eqn:E; cbn [negb map].
-  - apply Qeq_bool_iff in E. rewrite IH. unfold wp at 2. rewrite E, vscale_0, Hc.
-    rewrite <- (vsum_length n (map wp cl)) at 1 by (apply wf_map_wp; exact Hwf).
-    symmetry. apply vadd_zero_l.
+  destruct (nonzero_weight c) eqn:E; cbn [map].
   - rewrite (vsum_cons n (wp c)) by (try rewrite wp_length; try apply wf_map_wp; assumption).
     rewrite IH. reflexivity.
+  - unfold nonzero_weight in E. apply negb_false_iff in E. apply Qeq_bool_iff in E.
+    rewrite IH. unfold wp at 2. rewrite E, vscale_0, Hc.
+    pose proof (vadd_zero_l (vsum n (map wp cl))) as Z.
+    rewrite vsum_length in Z by (apply wf_map_wp; exact Hwf). symmetry; exact Z.
 Qed.
 
 Lemma wmean_zero_weight_irrelevant n cl : wf_clients n cl ->
@@ -242,41 +243,45 @@ Definition vmaxs (v0 : vec) (vs : list vec) : vec := fold_left (map2 Qmax) vs v0
 Lemma vmins_spec n vs : forall v0, length v0 = n -> Forall (fun v => length v = n) vs ->
   length (vmins v0 vs) = n /\ vle (vmins v0 vs) v0 /\ Forall (fun v => vle (vmins v0 vs) v) vs.
 Proof.
-  unfold vmins. induction vs as [|v vs IH]; intros v0 H0 Hvs; cbn.
+  unfold vmins. induction vs as [|v vs IH]; intros v0 H0 Hvs; cbn [fold_left].
   - split; [exact H0|]. split; [|constructor]. apply vle_nth_iff. split; [reflexivity|]. intros; lra.
-  - inversion Hvs as [|? ? Hv Hvs']; subst.
-    assert (Hm : length (map2 Qmin v0 v) = length v0) by (apply map2_length_eq; congruence).
-    destruct (IH (map2 Qmin v0 v) Hm) as [L [B1 B2]]; [rewrite H0; exact Hvs'|].
-    assert (C : forall i, (i < length v0)%nat ->
+  - pose proof (Forall_inv Hvs) as Hv. pose proof (Forall_inv_tail Hvs) as Hvs'. cbn beta in Hv.
+    assert (Hm : length (map2 Qmin v0 v) = n) by (apply map2_length_eq; congruence).
+    destruct (IH (map2 Qmin v0 v) Hm Hvs') as [L [B1 B2]].
+    assert (C : forall i, (i < n)%nat ->
                vnth i (map2 Qmin v0 v) <= vnth i v0 /\ vnth i (map2 Qmin v0 v) <= vnth i v).
     { intros i Hi. unfold vnth. rewrite (map2_nth Qmin v0 v i 0 0 0) by lia.
       split; [apply Q.le_min_l|apply Q.le_min_r]. }
-    apply vle_nth_iff in B1. destruct B1 as [L1 B1]. rewrite Hm in *.
+    apply vle_nth_iff in B1. destruct B1 as [_ B1].
     split; [exact L|]. split; [|constructor; [|exact B2]].
-    + apply vle_nth_iff. split; [lia|]. intros i Hi. rewrite L in Hi.
-      specialize (B1 i ltac:(lia)). destruct (C i ltac:(lia)). lra.
-    + apply vle_nth_iff. split; [lia|]. intros i Hi. rewrite L in Hi.
-      specialize (B1 i ltac:(lia)). destruct (C i ltac:(lia)). lra.
+    + apply vle_nth_iff. split; [lia|]. intros i Hi.
+      assert (Hi' : (i < n)%nat) by lia.
+      specialize (B1 i ltac:(lia)). destruct (C i Hi'). lra.
+    + apply vle_nth_iff. split; [lia|]. intros i Hi.
+      assert (Hi' : (i < n)%nat) by lia.
+      specialize (B1 i ltac:(lia)). destruct (C i Hi'). lra.
 Qed.
 
 Lemma vmaxs_spec n vs : forall v0, length v0 = n -> Forall (fun v => length v = n) vs ->
   length (vmaxs v0 vs) = n /\ vle v0 (vmaxs v0 vs) /\ Forall (fun v => vle v (vmaxs v0 vs)) vs.
 Proof.
-  unfold vmaxs. induction vs as [|v vs IH]; intros v0 H0 Hvs; cbn.
+  unfold vmaxs. induction vs as [|v vs IH]; intros v0 H0 Hvs; cbn [fold_left].
   - split; [exact H0|]. split; [|constructor]. apply vle_nth_iff. split; [reflexivity|]. intros; lra.
-  - inversion Hvs as [|? ? Hv Hvs']; subst.
-    assert (Hm : length (map2 Qmax v0 v) = length v0) by (apply map2_length_eq; congruence).
-    destruct (IH (map2 Qmax v0 v) Hm) as [L [B1 B2]]; [rewrite H0; exact Hvs'|].
-    assert (C : forall i, (i < length v0)%nat ->
+  - pose proof (Forall_inv Hvs) as Hv. pose proof (Forall_inv_tail Hvs) as Hvs'. cbn beta in Hv.
+    assert (Hm : length (map2 Qmax v0 v) = n) by (apply map2_length_eq; congruence).
+    destruct (IH (map2 Qmax v0 v) Hm Hvs') as [L [B1 B2]].
+    assert (C : forall i, (i < n)%nat ->
                vnth i v0 <= vnth i (map2 Qmax v0 v) /\ vnth i v <= vnth i (map2 Qmax v0 v)).
     { intros i Hi. unfold vnth. rewrite (map2_nth Qmax v0 v i 0 0 0) by lia.
       split; [apply Q.le_max_l|apply Q.le_max_r]. }
-    apply vle_nth_iff in B1. destruct B1 as [L1 B1]. rewrite Hm in *.
+    apply vle_nth_iff in B1. destruct B1 as [_ B1].
     split; [exact L|]. split; [|constructor; [|exact B2]].
     + apply vle_nth_iff. split; [lia|]. intros i Hi.
-      specialize (B1 i ltac:(lia)). destruct (C i ltac:(lia)). lra.
-    + apply vle_nth_iff. split; [lia|]. intros i Hi. rewrite Hv in Hi.
-      specialize (B1 i ltac:(lia)). destruct (C i ltac:(lia)). lra.
+      assert (Hi' : (i < n)%nat) by lia.
+      specialize (B1 i ltac:(lia)). destruct (C i Hi'). lra.
+    + apply vle_nth_iff. split; [lia|]. intros i Hi.
+      assert (Hi' : (i < n)%nat) by lia.
+      specialize (B1 i ltac:(lia)). destruct (C i Hi'). lra.
 Qed.
 
 (* the weighted mean lies inside the coordinatewise [min, max] of the inputs *)
@@ -338,7 +343,7 @@ Proof.
 Qed.
 
 (* ---------------- NanQ level: the same computation on possibly non-finite data ---------------- *)
-Definition nvec := list NanQ.t.
+Notation nvec := (list NanQ.t) (only parsing).
 Definition vlift (v : vec) : nvec := map Some v.
 Definition nq_vscale (c : NanQ.t) (v : nvec) : nvec := map (fun x => NanQ.mul x c) v.    (* l * weight *)
 Definition nq_vadd : nvec -> nvec -> nvec := map2 NanQ.add.
@@ -363,7 +368,9 @@ Lemma vlift_veq a b : a =v= b <-> nveq (vlift a) (vlift b).
 Proof.
   split.
   - induction 1; cbn; constructor; assumption.
-  - revert b; induction a as [|x a IH]; intros [|y b] H; cbn in *; inversion H; subst; constructor; auto.
+  - revert b; induction a as [|x a IH]; intros [|y b] H; cbn in *; inversion H; subst.
+    + constructor.
+    + constructor; [assumption|]. apply IH. assumption.
 Qed.
 
 Lemma nveq_lift_r u v : nveq u (vlift v) -> exists u', u = vlift u' /\ u' =v= v.
